@@ -205,6 +205,10 @@ def run(ctx):
         return msgs
 
     n_model_programs = sample_program_part(ctx)
+    # gates that share one routing function and one cache still route by their OWN targets (a restored decision of another gate
+    # would run a node its gate does not select)
+    from harness.props.c09 import same_gate_function_part
+    n_model_programs += same_gate_function_part(ctx)
     obs_all, res = engine.run_cases(ctx, "C03", cases, extra=extra)
     ctx.coverage.update(
         evaluations=len(cases) + n_model_programs, coq_checks=res["n"], distinct_nontrivial=len(nontrivial),
